@@ -31,6 +31,22 @@ fn lex(src: &str) -> Result<Vec<Tok>, String> {
         let c = cs[i];
         if c.is_whitespace() {
             i += 1;
+        } else if c == '/' && cs.get(i + 1) == Some(&'/') || c == '#' && (i == 0 || cs[i - 1] == '\n') {
+            // line comment / preprocessor-style line
+            while i < cs.len() && cs[i] != '\n' {
+                i += 1;
+            }
+        } else if c == '/' && cs.get(i + 1) == Some(&'*') {
+            match src[src.char_indices().nth(i + 2).map(|x| x.0).unwrap_or(src.len())..].find("*/") {
+                Some(_) => {
+                    i += 2;
+                    while i + 1 < cs.len() && !(cs[i] == '*' && cs[i + 1] == '/') {
+                        i += 1;
+                    }
+                    i += 2;
+                }
+                None => return Err("unterminated comment".into()),
+            }
         } else if c == '"' {
             // DOT quoted string: `\"` is an escaped quote, `\\` an escaped backslash, any other
             // backslash sequence is kept for the label processor
@@ -144,12 +160,30 @@ impl P {
             }
         }
     }
+    fn opt_semi(&mut self) {
+        if let Some(Tok::Sym(';')) = self.peek() {
+            self.i += 1;
+        }
+    }
+    fn opt_attrs(&mut self) -> Result<BTreeMap<String, String>, String> {
+        if let Some(Tok::Sym('[')) = self.peek() {
+            self.attr_list()
+        } else {
+            Ok(BTreeMap::new())
+        }
+    }
     fn body(&mut self) -> Result<Graph, String> {
         self.expect('{')?;
         let mut g = Graph::default();
         loop {
             match self.next()? {
                 Tok::Sym('}') => return Ok(g),
+                Tok::Sym(';') => {}
+                Tok::Id(s) if (s == "node" || s == "edge" || s == "graph") && matches!(self.peek(), Some(Tok::Sym('['))) => {
+                    // default attribute statement: well-formed, irrelevant for the comparison
+                    self.attr_list()?;
+                    self.opt_semi();
+                }
                 Tok::Id(s) if s == "subgraph" => {
                     let name = match self.next()? {
                         Tok::Id(n) => n,
@@ -158,27 +192,27 @@ impl P {
                     let sub = self.body()?;
                     g.clusters.push((name, sub));
                 }
-                Tok::Id(k) => {
+                Tok::Id(k) if matches!(self.peek(), Some(Tok::Sym('='))) => {
                     // graph attribute
                     self.expect('=')?;
                     let v = self.value()?;
-                    self.expect(';')?;
+                    self.opt_semi();
                     g.attrs.insert(k, v);
                 }
-                Tok::Q(a) => match self.peek() {
+                Tok::Q(a) | Tok::Id(a) => match self.peek() {
                     Some(Tok::Arrow) => {
                         self.i += 1;
                         let b = match self.next()? {
-                            Tok::Q(b) => b,
-                            o => return Err(format!("expected a quoted node id after '->', found {o:?}")),
+                            Tok::Q(b) | Tok::Id(b) => b,
+                            o => return Err(format!("expected a node id after '->', found {o:?}")),
                         };
-                        let at = self.attr_list()?;
-                        self.expect(';')?;
+                        let at = self.opt_attrs()?;
+                        self.opt_semi();
                         g.edges.push((a, b, at));
                     }
                     _ => {
-                        let at = self.attr_list()?;
-                        self.expect(';')?;
+                        let at = self.opt_attrs()?;
+                        self.opt_semi();
                         g.nodes.push((a, at));
                     }
                 },
@@ -190,9 +224,17 @@ impl P {
 
 fn parse_dot(src: &str) -> Result<Graph, String> {
     let mut p = P { t: lex(src)?, i: 0 };
-    match p.next()? {
+    let mut first = p.next()?;
+    if first == Tok::Id("strict".into()) {
+        first = p.next()?;
+    }
+    match first {
         Tok::Id(s) if s == "digraph" => {}
         o => return Err(format!("expected 'digraph', found {o:?}")),
+    }
+    // optional graph name
+    if let Some(Tok::Id(_)) | Some(Tok::Q(_)) = p.peek() {
+        p.i += 1;
     }
     let g = p.body()?;
     if p.i != p.t.len() {
@@ -207,8 +249,11 @@ fn parse_dot(src: &str) -> Result<Graph, String> {
 
 fn compare_automaton(g: &Graph, d: &DfaDump, prefix: &str, n_classes: usize) -> Result<(), String> {
     let n = d.states.len();
-    if g.nodes.len() != n {
-        return Err(format!("{} nodes drawn, the automaton has {n} states", g.nodes.len()));
+    let mut distinct: Vec<&String> = g.nodes.iter().map(|x| &x.0).collect();
+    distinct.sort();
+    distinct.dedup();
+    if distinct.len() != n {
+        return Err(format!("{} nodes drawn, the automaton has {n} states", distinct.len()));
     }
     for id in 0..n {
         let name = format!("{prefix}{id}");
